@@ -2,13 +2,13 @@
 # tools/recheck_seed.sh <seed id> <check ids...>: apply the seed's patch to the scratch worktree /tmp/wt/mine,
 # run the listed checks (quick) against it, restore the worktree.  Prints "<seed> <check> exit=<n>".
 sid=$1; shift
-wt=/tmp/wt/mine
+wt=${WT:-/tmp/wt/mine}
 [ -d $wt ] || git -C /repo worktree add --detach $wt HEAD >/dev/null 2>&1
 git -C $wt checkout -q --detach "$(git -C /repo rev-parse HEAD)"; git -C $wt checkout -- .
 p=/verif/seeded/$sid/patch.diff; [ -f $p ] || p=/tmp/seeded_out/$sid/patch.diff
 git -C $wt apply $p || { echo "$sid patch does not apply"; exit 2; }
 for c in "$@"; do
-  VERIF_REPO=$wt VERIF_NO_REPLAY_FILES=1 VERIF_EVIDENCE_DIR=/tmp/ev_mine /verif/check $c --tier ${TIER:-quick} > /tmp/recheck_${sid}_$c.log 2>&1
+  VERIF_REPO=$wt VERIF_NO_REPLAY_FILES=1 VERIF_EVIDENCE_DIR=/tmp/ev_$(basename $wt) /verif/check $c --tier ${TIER:-quick} > /tmp/recheck_${sid}_$c.log 2>&1
   echo "$sid $c exit=$? $(grep -c '^VIOLATION' /tmp/recheck_${sid}_$c.log) violations"
 done
 git -C $wt checkout -- .
